@@ -34,7 +34,7 @@ def budget(tier):
     return {'runs': 4000, 'seconds': 75} if tier == 'quick' else {'runs': 200000, 'seconds': 1500}
 
 
-BASE_WEIGHTS = {'ckpt': 0.8, 'train_burst': 0.8, 'train_step': 6, 'backward_only': 1.5, 'opt_step': 1.5, 'forward_only': 2, 'perturb_arch': 2, 'perturb_net': 1.0,
+BASE_WEIGHTS = {'observer': 1.2, 'ckpt': 0.8, 'train_burst': 0.8, 'train_step': 6, 'backward_only': 1.5, 'opt_step': 1.5, 'forward_only': 2, 'perturb_arch': 2, 'perturb_net': 1.0,
                 'set_mode': 1.5, 'train_group': 1.5, 'set_flag': 1, 'softmax_opts': 2, 'set_cost_spec': 0.6,
                 'read_cost': 0.7, 'read_summary': 0.3}
 
